@@ -64,6 +64,8 @@ impl<F: RedisClientFactory> ReplicatorManager<F> {
         }
 
         let force = flags.force;
+        #[cfg(feature = "verif_hooks")]
+        crate::verif_hooks::sched_point("ur_load", 0);
         if !force && self.updating_epoch.load(atomic::Ordering::SeqCst) >= epoch {
             return Err(ClusterMetaError::OldEpoch);
         }
@@ -72,6 +74,8 @@ impl<F: RedisClientFactory> ReplicatorManager<F> {
         // Set epoch first to let later requests fail fast.
         // We can't update the epoch inside the lock here.
         // Because when we get the info inside it, it may be partially updated and inconsistent.
+        #[cfg(feature = "verif_hooks")]
+        crate::verif_hooks::sched_point("ur_store", 0);
         self.updating_epoch.store(epoch, atomic::Ordering::SeqCst);
         // After this, other threads might accidentally change `updating_epoch` to a lower epoch,
         // we will correct his later.
@@ -141,6 +145,8 @@ impl<F: RedisClientFactory> ReplicatorManager<F> {
         }
 
         {
+            #[cfg(feature = "verif_hooks")]
+            crate::verif_hooks::sched_point("ur_wlock", 0);
             let mut replicators = self.replicators.write();
             if !force && epoch <= replicators.0 {
                 // We're fooled by the `updating_epoch`, update it.
